@@ -65,6 +65,11 @@ def main():
                 continue
             rc1, out1 = sh([PY, os.path.join("seeded", sid, "demo.py"), tree], cwd=tree, env=env, timeout=900)
             rec["demo_patched_exit"] = rc1
+            if not args.suite:
+                # keep what an earlier run with --suite recorded about the test suite on the patched copy
+                for k in ("suite_with_patch", "suite_failed_tests", "suite_failed_when_run_alone"):
+                    if k in results.get(sid, {}):
+                        rec[k] = results[sid][k]
             if args.suite:
                 rcs, outs = sh([PY, "-m", "pytest", "-q", "-p", "no:cacheprovider", "-n", "8", "--timeout=900"], cwd=tree,
                                env=dict(os.environ, PYTHONDONTWRITEBYTECODE="1"), timeout=3600)
